@@ -883,6 +883,9 @@ func (fx *FnExec) writeAllowed(ref Term, key string) Term {
 }
 
 func (fx *FnExec) frameWrite(st *State, ref Term, key string, pos token.Pos, fr *Frame) {
+	if strings.HasPrefix(key, "Local.") {
+		return // frame-local variables are not memory a caller can see
+	}
 	if fx.perWrite() {
 		label := "fresh-write"
 		if fr != nil && fr.site != "" {
